@@ -8,12 +8,16 @@ import (
 	"encoding/binary"
 	"fmt"
 	"net/netip"
+	"time"
 
 	"github.com/gopacket/gopacket"
 
 	"github.com/scionproto/scion/pkg/addr"
+	"github.com/scionproto/scion/pkg/scrypto"
 	"github.com/scionproto/scion/pkg/slayers"
+	"github.com/scionproto/scion/pkg/slayers/path"
 	"github.com/scionproto/scion/pkg/slayers/path/empty"
+	"github.com/scionproto/scion/pkg/slayers/path/scion"
 
 	"verifharness/vlib"
 )
@@ -36,6 +40,16 @@ type pkt struct {
 	derived int  // >= 0: "the layer-4 port derived from the packet"; -1: none
 	deflt   bool // documented default-port kinds (echo/traceroute request, other protocols)
 	guard   bool // the statement leaves room (DESIGN 7a): no demand
+	// outer header, for rebuilding the same packet with a real path
+	dstType slayers.AddrType
+	rawDst  []byte
+	nh      int
+	body    []byte
+}
+
+// withPath returns the same packet carried over a valid two-hop path entering through ifID.
+func (p *pkt) withPath(ifID uint16) []byte {
+	return buildSCIONPath(p.dstType, p.rawDst, p.nh, p.body, ifID)
 }
 
 const (
@@ -145,6 +159,53 @@ func buildSCION(dstType slayers.AddrType, rawDst []byte, nh int, payload []byte)
 	}
 	buf := gopacket.NewSerializeBuffer()
 	err := gopacket.SerializeLayers(buf, gopacket.SerializeOptions{FixLengths: true}, s,
+		gopacket.Payload(payload))
+	if err != nil {
+		panic(err)
+	}
+	return append([]byte(nil), buf.Bytes()...)
+}
+
+var hfKey = []byte("0123456789abcdef")
+
+// buildSCIONPath is buildSCION with a two-hop SCION path whose second (current, last) hop enters
+// the local AS through interface ifID and is authenticated with hfKey: a packet the fast path
+// accepts as inbound when it is received on that interface.
+func buildSCIONPath(dstType slayers.AddrType, rawDst []byte, nh int, payload []byte, ifID uint16) []byte {
+	info := path.InfoField{SegID: 0x1234, ConsDir: true, Timestamp: uint32(time.Now().Unix() - 10)}
+	hops := []path.HopField{
+		{ConsIngress: 0, ConsEgress: 77, ExpTime: 63},
+		{ConsIngress: ifID, ConsEgress: 0, ExpTime: 63},
+	}
+	mac, err := scrypto.InitMac(hfKey)
+	if err != nil {
+		panic(err)
+	}
+	hops[1].Mac = path.MAC(mac, info, hops[1], nil)
+	dp := &scion.Decoded{
+		Base: scion.Base{
+			PathMeta: scion.MetaHdr{CurrINF: 0, CurrHF: 1, SegLen: [3]uint8{2, 0, 0}},
+			NumINF:   1,
+			NumHops:  2,
+		},
+		InfoFields: []path.InfoField{info},
+		HopFields:  hops,
+	}
+	s := &slayers.SCION{
+		FlowID:      1,
+		NextHdr:     slayers.L4ProtocolType(nh),
+		PathType:    scion.PathType,
+		Path:        dp,
+		DstIA:       localIA,
+		SrcIA:       remoteIA,
+		DstAddrType: dstType,
+		RawDstAddr:  rawDst,
+	}
+	if err := s.SetSrcAddr(addr.HostIP(netip.MustParseAddr("172.16.4.7"))); err != nil {
+		panic(err)
+	}
+	buf := gopacket.NewSerializeBuffer()
+	err = gopacket.SerializeLayers(buf, gopacket.SerializeOptions{FixLengths: true}, s,
 		gopacket.Payload(payload))
 	if err != nil {
 		panic(err)
@@ -308,15 +369,17 @@ func mkPkt(r *vlib.Rand, kind, port int, d dstFacts) *pkt {
 			t = slayers.T16Ip
 		}
 		p.dstTok = "ip:" + vlib.Hex(d.ip.AsSlice())
-		p.raw = buildSCION(t, d.ip.AsSlice(), nh, body)
+		p.dstType, p.rawDst = t, d.ip.AsSlice()
 	case "svc":
 		p.dstTok = fmt.Sprintf("s:%d", d.svc)
-		p.raw = buildSCION(slayers.T4Svc, []byte{byte(d.svc >> 8), byte(d.svc), 0, 0}, nh, body)
+		p.dstType, p.rawDst = slayers.T4Svc, []byte{byte(d.svc >> 8), byte(d.svc), 0, 0}
 	default:
 		p.dstTok = "x"
 		t := []slayers.AddrType{0b0001, 0b0010, 0b0101, 0b0111, 0b1000, 0b1100}[r.Intn(6)]
-		p.raw = buildSCION(t, r.Bytes(t.Length()), nh, body)
+		p.dstType, p.rawDst = t, r.Bytes(t.Length())
 	}
+	p.nh, p.body = nh, body
+	p.raw = buildSCION(p.dstType, p.rawDst, nh, body)
 	return p
 }
 
